@@ -2,12 +2,14 @@ import CJ.Drv.Loop
 import CJ.Drv.ConnHandler
 import CJ.Drv.ConnStats
 import CJ.Drv.ReloadEnv
+import CJ.Drv.ConnTimed
 /-! Driver for C03: the connection-handler model (`conn|…` lines) and its statistics transitions (`connstats|…`),
-the reload histories before a connection (`reloadenv|…`). -/
+the reload histories before a connection (`reloadenv|…`), the handler on the clock (`conntime|…`). -/
 open CJ.Drv
 
 def main : IO Unit := runDriver fun
   | "conn" :: args => ConnHandler.handle args
   | "connstats" :: args => ConnStats.handle args
   | "reloadenv" :: args => ReloadEnv.handle args
+  | "conntime" :: args => ConnTimed.handle args
   | _ => none
